@@ -571,3 +571,77 @@ def soak_scenario(rng, nclients, pool_size, txns, session_mode=False):
     steps.append({"op": "sleep", "ms": 100})
     steps.append({"op": "snapshot", "label": "end"})
     return {"backends": [{"name": "b0"}], "toml": toml, "steps": steps, "workers": 4}
+
+
+# ----------------------------------------------------------------------------- environment faults (monitor-only)
+def env_scenarios(rng, count):
+    """Scenarios outside the session model's op alphabet (the model has no health check and no server-side reset of an idle
+    connection): a health check that is answered late, a server that resets its idle connections, both mixed with ordinary
+    transactions of 2-3 clients.  Evaluated with the model-free monitors only (plus `own_reply_problems`)."""
+    out = []
+    for t in range(count):
+        kind = ["late_healthcheck", "reset_idle", "both"][t % 3]
+        ps = rng.choice([1, 1, 2])
+        ncl = rng.choice([2, 3])
+        general = {"connect_timeout": 1200, "healthcheck_timeout": 250}
+        if kind != "reset_idle" or rng.random() < 0.5:
+            general["healthcheck_delay"] = 0          # every checkout runs the `;` health check first
+        toml = W.make_toml(general=general, pools={"db": {
+            "opts": {"pool_mode": "transaction"}, "users": [{"pool_size": ps, "statement_timeout": 3000}],
+            "shards": [{"servers": [["b0", "primary"]]}]}})
+        steps = []
+        for c in range(1, ncl + 1):
+            steps.append({"op": "connect", "c": "c%d" % c, "params": {"user": "u", "database": "db"}, "password": "pw"})
+        nq = [0]
+
+        def q(c, sql):
+            nq[0] += 1
+            steps.append({"op": "send", "c": "c%d" % c, "msgs": [{"t": "Q", "sql": "%s /*c%d*/" % (sql, c)}]})
+            steps.append({"op": "recv", "c": "c%d" % c, "until": "Z", "timeout_ms": 4000, "label": "q"})
+            steps.append({"op": "sleep", "ms": 25})
+
+        def plain(c):
+            q(c, rng.choice(["SELECT 1", "SELECT 1", "BEGIN; SELECT 1; COMMIT", "SELECT 1 /*mock: rows=2, size=300*/"]))
+        for c in range(1, ncl + 1):
+            plain(c)
+        for rnd in range(rng.randint(2, 4)):
+            f = kind if kind != "both" else rng.choice(["late_healthcheck", "reset_idle"])
+            if f == "late_healthcheck" and "healthcheck_delay" in general:
+                steps.append({"op": "backend", "b": "b0", "slow_exact": {"sql": ";", "ms": rng.choice([450, 700]), "count": rng.choice([1, 1, 2])}})
+            else:
+                steps.append({"op": "backend", "b": "b0", "reset_sessions": True})
+                steps.append({"op": "sleep", "ms": 60})
+            victim = rng.randint(1, ncl)
+            q(victim, "SELECT 1")                      # may be refused / fail: any reply is fine, somebody else's is not
+            steps.append({"op": "sleep", "ms": rng.choice([100, 500, 800])})
+            order = list(range(1, ncl + 1))
+            rng.shuffle(order)
+            for c in order + order:
+                plain(c)
+        steps.append({"op": "sleep", "ms": 60})
+        steps.append({"op": "snapshot", "label": "end"})
+        out.append({"backends": [{"name": "b0"}], "toml": toml, "steps": steps, "workers": 2, "_kind": kind})
+    return out
+
+
+def own_reply_problems(res):
+    """Every ReadyForQuery-terminated reply a client reads for a tagged plain statement is either an error reply or carries
+    rows naming exactly that statement (the mock puts the statement text into every row)."""
+    bad, pending = [], {}
+    for e in res.get("events", []):
+        who = e.get("who", "")
+        if e.get("ev") == "sent" and who.startswith("c") and e.get("msgs") and e["msgs"][0].get("t") == "Q":
+            pending[who] = e["msgs"][0].get("sql", "")
+        elif e.get("ev") == "recv" and who in pending and e.get("outcome") == "ok":
+            sql = pending.pop(who)
+            fr = e.get("frames", [])
+            if any(f.get("t") == "E" for f in fr):
+                continue
+            rows = [f for f in fr if f.get("t") == "D" and f.get("cols") and len(f["cols"]) >= 3]
+            texts = [f["cols"][2] for f in rows if isinstance(f["cols"][2], str)]
+            if "SELECT" in sql and not texts:
+                bad.append({"client": who, "statement": sql, "reply_without_rows": [f.get("t") for f in fr]})
+            for tx in texts:
+                if tx.strip() not in sql:
+                    bad.append({"client": who, "statement": sql, "row_of_another_statement": tx})
+    return bad
